@@ -14,7 +14,13 @@ EXTENDS ImbMgr, Json, IOUtils, TLC
 Tr == ndJsonDeserialize(IOEnv.TRACE)
 
 VARIABLE l
-tvars == <<vars, l>>
+\* trace-only bookkeeping for the stage machine (C06 in multi-job schedules, hook H1):
+\*   suiteOf : id -> suite cell of every job in flight
+\*   plan    : id -> stage submissions still owed by that job (sequence of <<"cipher"|"hash", row>>)
+VARIABLES suiteOf, plan
+tvars == <<vars, l, suiteOf, plan>>
+
+D == INSTANCE Dispatch
 
 M(t) == IF "m" \in DOMAIN t THEN t.m ELSE 0
 
@@ -49,9 +55,57 @@ Observed(t, m) ==
     /\ Has("mem") => t.b_mem = 0
     /\ Has("desc") => t.b_desc = 0
 
+CellOfSuite(su) == [mode |-> su[1], klen |-> su[2], dir |-> su[3], hash |-> su[4], order |-> su[5]]
+KindName(k) == IF k % 8 \in {0, 2} THEN "cipher" ELSE "hash"
+RowOf(c, k) == IF KindName(k) = "cipher" THEN D!CipherRow(c) ELSE D!HashRow(c)
+
+\* consume the stage events of one call: [id, kind, row, returned id, returned status]
+\* kinds 0/1 (+8 via suite id) are stage submissions and must be the next stage the job owes, on the
+\* row the specification computes; kinds 2/3 are flush dispatches on behalf of job `id' and must use
+\* that job's own row
+RECURSIVE ApplyStages(_, _, _, _)
+ApplyStages(p, su, st, i) ==
+    IF i > Len(st) THEN [ok |-> TRUE, p |-> p]
+    ELSE LET e == st[i] id == e[1] k == e[2] row == e[3] IN
+         IF id \notin DOMAIN su THEN [ok |-> FALSE, p |-> p]
+         ELSE IF row # RowOf(su[id], k) THEN [ok |-> FALSE, p |-> p]
+         ELSE IF k % 8 > 1 THEN ApplyStages(p, su, st, i + 1)
+         \* dedicated AEAD pairings: the cipher row is owed exactly once; whether (and when) the
+         \* separate hash row is visited is the implementation's choice (one-pass kernels)
+         ELSE IF D!PartnerHash(su[id].mode) # 0 /\ KindName(k) = "hash" THEN ApplyStages(p, su, st, i + 1)
+         ELSE IF p[id] = <<>> \/ Head(p[id]) # <<KindName(k), row>> THEN [ok |-> FALSE, p |-> p]
+         ELSE ApplyStages([p EXCEPT ![id] = Tail(@)], su, st, i + 1)
+
+\* a handed-back completed job owes nothing (one-pass AEADs may skip the separate hash row)
+Settled(c, rest) == rest = <<>>
+
+RestrictTo(f, S) == [x \in S |-> f[x]]
+
+\* new = sequence of <<id, suite>> accepted in this call ; t = event
+NewSuite(new, id) == LET i == CHOOSE i \in 1 .. Len(new) : new[i][1] = id IN CellOfSuite(new[i][2])
+
+StageStep(t, new) ==
+    IF ~Has("stage") THEN UNCHANGED <<suiteOf, plan>>
+    ELSE LET newIds == { new[i][1] : i \in 1 .. Len(new) }
+             su1 == [id \in DOMAIN suiteOf \cup newIds |->
+                        IF id \in newIds THEN NewSuite(new, id) ELSE suiteOf[id]]
+             p1 == [id \in DOMAIN plan \cup newIds |->
+                        IF id \in newIds
+                        THEN (IF D!PartnerHash(su1[id].mode) # 0
+                              THEN << <<"cipher", D!CipherRow(su1[id])>> >> ELSE D!StagePlan(su1[id]))
+                        ELSE plan[id]]
+             r == ApplyStages(p1, su1, t.stages, 1)
+             gone == { t.ret[i] : i \in 1 .. Len(t.ret) }
+         IN /\ r.ok
+            /\ \A i \in 1 .. Len(t.ret) :
+                  (t.rst[i] = 3 /\ t.ret[i] \in DOMAIN su1) => Settled(su1[t.ret[i]], r.p[t.ret[i]])
+            /\ suiteOf' = RestrictTo(su1, DOMAIN su1 \ gone)
+            /\ plan' = RestrictTo(r.p, DOMAIN r.p \ gone)
+
 TraceInit ==
     /\ l = 1
     /\ Init
+    /\ suiteOf = <<>> /\ plan = <<>>
     /\ next = [m \in Mgr |-> 0]      \* the first Reset event supplies the real value
 
 \* a new execution starts on a freshly allocated and initialised manager
@@ -59,6 +113,7 @@ TReset ==
     /\ IsEvent("Reset")
     /\ LET t == Tr[l] m == M(t) IN
        /\ InitMgr(m, t.next, 0)
+       /\ suiteOf' = <<>> /\ plan' = <<>>
 
 TGetNextJob ==
     /\ IsEvent("GetNextJob")
@@ -69,6 +124,7 @@ TGetNextJob ==
        /\ Has("errno") => (errno'[m] = t.errno /\ gerrno' = t.gerrno)
        /\ Has("abi") => t.abi = 0
        /\ earliest[m] = t.earliest /\ next[m] = t.next
+       /\ UNCHANGED <<suiteOf, plan>>
 
 TSubmitJob ==
     /\ IsEvent("SubmitJob")
@@ -77,12 +133,14 @@ TSubmitJob ==
        /\ t.slot = next[m]
        /\ SubmitJob(m, t.valid = 1, t.chk = 1, t.experr, ToSet(t.done))
        /\ Observed(t, m)
+       /\ StageStep(t, IF Has("stage") /\ t.valid = 1 THEN << <<t.id, t.suite>> >> ELSE <<>>)
 
 TFlushJob ==
     /\ IsEvent("FlushJob")
     /\ LET t == Tr[l] m == M(t) IN
        /\ FlushJob(m, ToSet(t.done))
        /\ Observed(t, m)
+       /\ StageStep(t, <<>>)
 
 TGetCompletedJob ==
     /\ IsEvent("GetCompletedJob")
@@ -90,6 +148,7 @@ TGetCompletedJob ==
        /\ t.done = <<>>
        /\ GetCompletedJob(m)
        /\ Observed(t, m)
+       /\ StageStep(t, <<>>)
 
 TQueueSize ==
     /\ IsEvent("QueueSize")
@@ -97,6 +156,7 @@ TQueueSize ==
        /\ t.done = <<>>
        /\ QueueSize(m)
        /\ t.q = QSize(m)
+       /\ UNCHANGED <<suiteOf, plan>>
        /\ earliest'[m] = t.earliest /\ next'[m] = t.next
        /\ Has("errno") => (errno'[m] = t.errno /\ gerrno' = t.gerrno)
        /\ Has("abi") => t.abi = 0
@@ -108,6 +168,7 @@ TGetNextBurst ==
        /\ GetNextBurst(m, t.n)
        /\ last'.slots = t.slots
        /\ t.clash = 0
+       /\ UNCHANGED <<suiteOf, plan>>
        /\ earliest'[m] = t.earliest /\ next'[m] = t.next
        /\ Has("errno") => (errno'[m] = t.errno /\ gerrno' = t.gerrno)
        /\ Has("abi") => t.abi = 0
@@ -126,6 +187,8 @@ TSubmitBurst ==
                /\ t.offender_st = 4
        /\ t.nret = Len(t.ret)
        /\ Observed(t, m)
+       /\ StageStep(t, IF Has("stage") /\ t.valid = 1 /\ t.rejected = 0
+                        THEN [i \in 1 .. k |-> <<t.ids[i], t.suites[i]>>] ELSE <<>>)
 
 TFlushBurst ==
     /\ IsEvent("FlushBurst")
@@ -133,6 +196,7 @@ TFlushBurst ==
        /\ FlushBurst(m, t.max, ToSet(t.done))
        /\ t.nret = Len(t.ret)
        /\ Observed(t, m)
+       /\ StageStep(t, <<>>)
 
 \* end of an execution: everything submitted came back, guard bytes intact
 TEnd ==
@@ -144,7 +208,7 @@ TEnd ==
        /\ QSize(m) = 0
        /\ Has("mem") => t.canary = 0
        /\ Has("abi") => t.abi_viol = 0
-    /\ UNCHANGED vars
+    /\ UNCHANGED <<vars, suiteOf, plan>>
 
 TraceNext ==
     \/ TReset \/ TGetNextJob \/ TSubmitJob \/ TFlushJob \/ TGetCompletedJob \/ TQueueSize
